@@ -99,6 +99,11 @@ def generate(repo, outdir):
     stores = [n for n in ast.walk(gf) if isinstance(n, ast.Subscript) and isinstance(n.ctx, ast.Store) and "_cached_fonts" in ast.unparse(n.value)]
     if len(stores) != 1:
         font_guard = False
+    # the descendant CIDFont dictionary (a cached, shared object) is copied before the parent's entries are written into it
+    subspec_copied = "subspec = dict_value(dfonts[0]).copy()" in ast.unparse(gf)
+    subspec_writes = [n for n in ast.walk(gf) if isinstance(n, ast.Subscript) and isinstance(n.ctx, ast.Store) and ast.unparse(n.value) == "subspec"]
+    if not subspec_writes:
+        subspec_copied = True
     tree = ast.parse(open(os.path.join(repo, "pdfminer", "pdfdocument.py"), encoding="utf-8").read())
     go = find_def(tree, "PDFDocument", "getobj")
     obj_guard = False
@@ -110,6 +115,7 @@ def generate(repo, outdir):
            "Definition use_cmap_copies : bool := %s." % ("true" if use_cmap_copies else "false"),
            "Definition font_cache_guarded : bool := %s." % ("true" if font_guard else "false"),
            "Definition object_cache_guarded : bool := %s." % ("true" if obj_guard else "false"),
+           "Definition type0_subspec_copied : bool := %s." % ("true" if subspec_copied else "false"),
            "Definition shared_state_count : nat := %d." % sum(len(v) for v in found.values())]
     write_if_changed(os.path.join(outdir, "Purity.v"), "\n".join(out) + "\n")
     return ["Purity.v"]
